@@ -22,7 +22,7 @@ var MatrixElems = []string{"bool", "byte", "uint8", "uint16", "int16", "uint32",
 
 var MatrixShapes = []string{"T", "T[]", "T[][]", "T[][][]", "map[string,T]", "map[T,int32]", "map[string,T][]", "map[string,T[]]", "map[int32,map[string,T]]", "map[guid,T[][]]", "map[uint8,T][][]"}
 
-var MatrixCtxs = []string{"struct", "readonly", "message", "message+deprecated", "union-struct", "union-message"}
+var MatrixCtxs = []string{"struct", "struct-last", "readonly", "message", "message+deprecated", "union-struct", "union-message"}
 
 // elemDefs returns the simple type name for an element kind and the definitions it needs,
 // with names suffixed by sfx so that several cells can share one package.
@@ -109,6 +109,9 @@ func cellRecord(ctx, name string, t Type) *Def {
 	switch ctx {
 	case "struct":
 		return &Def{Kind: "struct", Name: name, Fields: []Field{f("lead", Simple("byte")), f("x", t), f("tail", Simple("int32"))}}
+	case "struct-last":
+		// the field under test is the last thing on the wire
+		return &Def{Kind: "struct", Name: name, Fields: []Field{f("lead", Simple("byte")), f("x", t)}}
 	case "readonly":
 		return &Def{Kind: "struct", Name: name, ReadOnly: true, Fields: []Field{f("lead", Simple("byte")), f("x", t), f("tail", Simple("int32"))}}
 	case "message":
